@@ -297,6 +297,9 @@ def run(rep: Report, repo: Repo, tier: str) -> None:
 
     # ---- R5 relative_to_config
     rule_output_dir_resolution(rep, repo, "C16-R5")
+    # the value in effect for an input is the layered one, not what an earlier input of the same run left behind
+    from . import fsrules
+    fsrules.rule_isolation(rep, repo, "C16-R7")
 
 
 def rule_output_dir_resolution(rep: Report, repo: Repo, rule: str) -> None:
